@@ -209,7 +209,8 @@ impl<'a> Sk<'a> {
             Expr::Reference(r) => {
                 let inner = self.val(&r.expr, out)?;
                 Ok(inner.map(|t| {
-                    if self.is_tracked_root(&r.expr).is_some() {
+                    let noncopy_kept = self.kept.get(&t).map(|ty| !["bool", "usize", "Fl"].contains(&ty.as_str())).unwrap_or(false);
+                    if self.is_tracked_root(&r.expr).is_some() || noncopy_kept {
                         format!("&{}{t}", if r.mutability.is_some() { "mut " } else { "" })
                     } else {
                         t
@@ -671,18 +672,34 @@ impl<'a> Sk<'a> {
                 let scrut = self.val(&m.expr, &mut pre)?;
                 out.extend(pre);
                 let n = m.arms.len();
-                for (k, arm) in m.arms.iter().enumerate() {
-                    let head = match &scrut {
-                        Some(s) => format!("{}if let {} = {s} {{", if k > 0 { "} else " } else { "" }, self.pat_text(&arm.pat)),
-                        None => {
-                            if k + 1 < n {
-                                format!("{}if nd() {{", if k > 0 { "} else " } else { "" })
-                            } else if k > 0 {
-                                "} else {".into()
-                            } else {
-                                "{".into()
+                if let Some(sv) = &scrut {
+                    // a kept scrutinee: a real `match` (exhaustiveness is checked by rustc)
+                    out.push(format!("match {sv} {{ {}", self.srcnote(m.expr.span())));
+                    for arm in m.arms.iter() {
+                        out.push(format!("    {} => {{ {}", self.pat_text(&arm.pat), self.srcnote(arm.pat.span())));
+                        let mut inner = Vec::new();
+                        match &*arm.body {
+                            Expr::Block(b) => self.block_tail(&b.block, &mut inner)?,
+                            other => {
+                                let v = self.retval(other, &mut inner)?;
+                                if v != "__returned__" {
+                                    inner.push(self.ret_stmt(&v));
+                                }
                             }
                         }
+                        out.extend(ind(ind(inner)));
+                        out.push("    }".into());
+                    }
+                    out.push("}".into());
+                    return Ok(());
+                }
+                for (k, arm) in m.arms.iter().enumerate() {
+                    let head = if k + 1 < n {
+                        format!("{}if nd() {{", if k > 0 { "} else " } else { "" })
+                    } else if k > 0 {
+                        "} else {".to_string()
+                    } else {
+                        "{".to_string()
                     };
                     out.push(format!("{head} {}", self.srcnote(arm.pat.span())));
                     let mut inner = Vec::new();
@@ -697,11 +714,7 @@ impl<'a> Sk<'a> {
                     }
                     out.extend(ind(inner));
                 }
-                if scrut.is_some() {
-                    out.push("} else { assume_unreachable(); }".into());
-                } else {
-                    out.push("}".into());
-                }
+                out.push("}".into());
                 Ok(())
             }
             other => {
@@ -916,9 +929,14 @@ impl<'a> Sk<'a> {
                             out.push(format!("let {m}{name}: {ty} = {rhs}; {}", self.srcnote(l.span())));
                         } else if let Some(v) = v {
                             if v.contains('(') && !v.starts_with('(') {
-                                out.push(format!("let _ = {v}; {}", self.srcnote(l.span())));
+                                // S11: a local bound to the result of an event keeps that result (type inferred),
+                                // so that `let s = ctor()?; Ok(s)` is the same skeleton as `ctor()`
+                                out.push(format!("let {m}{name} = {v}; {}", self.srcnote(l.span())));
+                                self.kept.insert(name.clone(), "_".into());
+                                self.note("S11", l.span(), "local bound to an event result is kept");
+                            } else {
+                                self.dropped += 1;
                             }
-                            self.dropped += 1;
                         } else {
                             self.dropped += 1;
                         }
